@@ -145,7 +145,27 @@ pub fn apply_op(op: &Op, top: bool) {
             let id = id as Oid;
             let node = Node::new(id, d.clone());
             let prev = arena::set_ctx(CtxKind::New, id, 0);
-            let h = lib(|| Rc::new(node));
+            // every way of constructing an Rc (they initialise the allocation
+            // header and the link table separately)
+            let how = ((wd.layout_lo.get() >> 3) ^ id as u64) % 8;
+            let h: Rc<Node> = match how {
+                5 => {
+                    let b = {
+                        let _t = arena::track_off();
+                        Box::new(node)
+                    };
+                    lib(|| Rc::from(b))
+                }
+                6 => lib(|| Rc::from(node)),
+                7 => lib(|| {
+                    let mut u = Rc::<Node>::new_uninit();
+                    unsafe {
+                        Rc::get_mut(&mut u).unwrap().as_mut_ptr().write(node);
+                        u.assume_init()
+                    }
+                }),
+                _ => lib(|| Rc::new(node)),
+            };
             arena::restore_ctx(prev);
             let addr = Rc::__verif_addr(&h);
             let vaddr = Rc::as_ptr(&h) as usize;
@@ -1169,6 +1189,7 @@ pub fn run_script_body(s: &Script, cfg: Cfg) {
     let digest = cfg.digest;
     let leaks = cfg.audit_leaks;
     install_world(cfg);
+    w().layout_lo.set(s.layout_seed);
     install_panic_hook();
     cactusref::__verif::reset();
     let wd = w();
